@@ -79,8 +79,13 @@ func runProxy(commandPrefix string, cmdBuilder func(temp string, needBash bool) 
 				if opts.Input == nil {
 					io.Copy(inputFile, os.Stdin)
 				} else {
+					// The delimiter the real fzf splits its input at
+					delim := "\n"
+					if opts.ReadZero {
+						delim = "\x00"
+					}
 					for item := range opts.Input {
-						fmt.Fprint(inputFile, item+opts.PrintSep)
+						fmt.Fprint(inputFile, item+delim)
 					}
 				}
 			})
